@@ -7,9 +7,9 @@ from . import REPO
 
 class Case:
   def __init__(s,name,requires='True',ensures=None,raises=None,raises_today=None,when=None,modifies=None,returns=None,
-               raises_or_ensures=False, source=None):
+               raises_or_ensures=False, source=None, raise_only_if=None):
     s.name=name; s.requires=requires; s.ensures=ensures; s.raises=raises; s.raises_today=raises_today
-    s.when=when or {}; s.modifies=modifies; s.returns=returns; s.raises_or_ensures=raises_or_ensures; s.source=source
+    s.when=when or {}; s.modifies=modifies; s.returns=returns; s.raises_or_ensures=raises_or_ensures; s.source=source; s.raise_only_if=raise_only_if
   def applies(s,tags):
     """tags: param -> type tag of the actual argument (call sites) or label of the view variant."""
     for p,t in s.when.items():
@@ -25,16 +25,16 @@ class Case:
     return [t]
 
 class Loop:
-  def __init__(s,invariant,decreases=None,modifies=(),lemmas=()):
-    s.invariant=list(invariant); s.decreases=decreases; s.modifies=list(modifies); s.lemmas=list(lemmas)
+  def __init__(s,invariant,decreases=None,modifies=(),lemmas=(),ghost=()):
+    s.invariant=list(invariant); s.decreases=decreases; s.modifies=list(modifies); s.lemmas=list(lemmas); s.ghost=tuple(ghost)
 
 class Contract:
   def __init__(s,key,view,cases,modifies=(),returns=None,source_of_post='',loops=None,ghost=None,property_ids=(),trusted=False,
-               sample=None, build=None, note='', bounded=None, standin_inputs=None, refute_pins=None, call_effect=None, native=None):
+               sample=None, build=None, note='', bounded=None, standin_inputs=None, refute_pins=None, call_effect=None, native=None, ghost_hooks=None, abstract_lists=(), ghost_init=None, exit_lemmas=()):
     s.key=key; s.file,s.qual=key.split('::'); s.view=view; s.cases=cases; s.modifies=list(modifies)
     s.returns=returns; s.source_of_post=source_of_post; s.loops=loops or {}; s.ghost=ghost or {}
     s.property_ids=tuple(property_ids); s.trusted=trusted; s.sample=sample; s.build=build; s.note=note
-    s.bounded=bounded; s.standin_inputs=standin_inputs; s.refute_pins=refute_pins; s.call_effect=call_effect; s.native=native
+    s.bounded=bounded; s.standin_inputs=standin_inputs; s.refute_pins=refute_pins; s.call_effect=call_effect; s.native=native; s.ghost_hooks=ghost_hooks or {}; s.abstract_lists=tuple(abstract_lists); s.ghost_init=ghost_init; s.exit_lemmas=list(exit_lemmas)
     s._reg=None
   def module(s,reg): return reg.module(s.file)
   def fn_ast(s,reg): return reg.module(s.file).function(s.qual)
